@@ -5,6 +5,7 @@ import (
 	"go/constant"
 	"go/token"
 	"go/types"
+	"sort"
 	"strings"
 
 	"golang.org/x/tools/go/ssa"
@@ -567,10 +568,15 @@ func pointOf(in ssa.Instruction) Point {
 // instruction for which avoid() is true, never takes a cut edge, and reaches an instruction for
 // which goal() is true. Returns the witness (block indices) or nil.
 func findPath(from Point, goal, avoid func(ssa.Instruction) bool, cut edgeSet) []string {
+	if from.B == nil {
+		return nil
+	}
+	rel := nilRelevant(from.B.Parent())
 	type item struct {
-		b    *ssa.BasicBlock
-		from int
-		prev *item
+		b     *ssa.BasicBlock
+		from  int
+		facts map[ssa.Value]bool // value -> known to be non-nil (true) / nil (false) on this path
+		prev  *item
 	}
 	scan := func(it *item) (hit bool, blocked bool) {
 		for i := it.from; i < len(it.b.Instrs); i++ {
@@ -591,8 +597,32 @@ func findPath(from Point, goal, avoid func(ssa.Instruction) bool, cut edgeSet) [
 		}
 		return w
 	}
-	start := &item{from.B, from.I + 1, nil}
-	seen := map[*ssa.BasicBlock]bool{}
+	encode := func(m map[ssa.Value]bool) string {
+		if len(m) == 0 {
+			return ""
+		}
+		var ks []string
+		for k, v := range m {
+			ks = append(ks, fmt.Sprintf("%s=%v", k.Name(), v))
+		}
+		sort.Strings(ks)
+		return strings.Join(ks, ",")
+	}
+	type key struct {
+		b *ssa.BasicBlock
+		f string
+	}
+	start := &item{b: from.B, from: from.I + 1}
+	if len(rel) > 0 {
+		// what the branches that dominate the starting block say about nil-ness
+		start.facts = map[ssa.Value]bool{}
+		for _, dc := range dominatingConds(from.B) {
+			if v, nonNil, ok := nilFact(dc.cond, dc.val); ok && rel[v] {
+				start.facts[v] = nonNil
+			}
+		}
+	}
+	seen := map[key]bool{}
 	queue := []*item{start}
 	for len(queue) > 0 {
 		it := queue[0]
@@ -604,15 +634,165 @@ func findPath(from Point, goal, avoid func(ssa.Instruction) bool, cut edgeSet) [
 		if blocked {
 			continue
 		}
+		ifi := blockIf(it.b)
 		for i, s := range it.b.Succs {
-			if cut[Edge{it.b, i}] || seen[s] {
+			if cut[Edge{it.b, i}] {
 				continue
 			}
-			seen[s] = true
-			queue = append(queue, &item{s, 0, it})
+			var nf map[ssa.Value]bool
+			if len(rel) > 0 {
+				// an edge that contradicts what the path already knows about a value is infeasible
+				feasible := true
+				nf = map[ssa.Value]bool{}
+				for k, v := range it.facts {
+					nf[k] = v
+				}
+				if ifi != nil {
+					for _, f := range impliedFacts(ifi.Cond, i == 0, 0) {
+						v, nonNil, ok := nilFact(f.v, f.val)
+						if !ok || !rel[v] {
+							continue
+						}
+						if known, has := it.facts[v]; has && known != nonNil {
+							feasible = false
+						}
+						nf[v] = nonNil
+					}
+				}
+				if !feasible {
+					continue
+				}
+				// entering s: its phis take the value of this edge, everything else defined in s is new
+				pi := -1
+				for k, pr := range s.Preds {
+					if pr == it.b {
+						pi = k
+					}
+				}
+				upd := map[ssa.Value]*bool{}
+				for _, in := range s.Instrs {
+					v, isV := in.(ssa.Value)
+					if !isV || !rel[v] {
+						continue
+					}
+					upd[v] = nil
+					if ph, isPhi := in.(*ssa.Phi); isPhi && pi >= 0 {
+						if st, ok := nilStateOf(ph.Edges[pi], nf); ok {
+							b := st
+							upd[v] = &b
+						}
+					}
+				}
+				for v, st := range upd {
+					if st == nil {
+						delete(nf, v)
+					} else {
+						nf[v] = *st
+					}
+				}
+			}
+			k := key{s, encode(nf)}
+			if seen[k] {
+				continue
+			}
+			seen[k] = true
+			queue = append(queue, &item{s, 0, nf, it})
 		}
 	}
 	return nil
+}
+
+// nilFact: cond == val says that v is non-nil (nonNil=true) or nil.
+func nilFact(cond ssa.Value, val bool) (v ssa.Value, nonNil, ok bool) {
+	b, isB := cond.(*ssa.BinOp)
+	if !isB || (b.Op != token.EQL && b.Op != token.NEQ) {
+		return nil, false, false
+	}
+	switch {
+	case isNilConst(b.Y):
+		v = b.X
+	case isNilConst(b.X):
+		v = b.Y
+	default:
+		return nil, false, false
+	}
+	return v, (b.Op == token.NEQ) == val, true
+}
+
+// nilStateOf: what is known about e — a constant, a freshly made value, or a value the path has a fact about.
+func nilStateOf(e ssa.Value, facts map[ssa.Value]bool) (nonNil, ok bool) {
+	if isNilConst(e) {
+		return false, true
+	}
+	if st, has := facts[e]; has {
+		return st, true
+	}
+	switch x := e.(type) {
+	case *ssa.Alloc, *ssa.MakeInterface, *ssa.MakeClosure, *ssa.MakeMap, *ssa.MakeSlice, *ssa.MakeChan, *ssa.Function:
+		return true, true
+	case *ssa.Call:
+		rf := refOf(x.Common())
+		if rf.is("fmt", "", "Errorf") || rf.is("errors", "", "New") {
+			return true, true
+		}
+	}
+	return false, false
+}
+
+// nilRelevant: the values of fn whose nil-ness a path search tracks — those compared with nil that are
+// phis or feed such phis (a variable assigned in several branches and tested after they join).
+var nilRelevantCache = map[*ssa.Function]map[ssa.Value]bool{}
+
+func nilRelevant(fn *ssa.Function) map[ssa.Value]bool {
+	if fn == nil {
+		return nil
+	}
+	if r, ok := nilRelevantCache[fn]; ok {
+		return r
+	}
+	rel := map[ssa.Value]bool{}
+	var add func(v ssa.Value, d int)
+	add = func(v ssa.Value, d int) {
+		if v == nil || rel[v] || d > 6 {
+			return
+		}
+		if _, isC := v.(*ssa.Const); isC {
+			return
+		}
+		rel[v] = true
+		if ph, ok := v.(*ssa.Phi); ok {
+			for _, e := range ph.Edges {
+				add(e, d+1)
+			}
+		}
+	}
+	hasPhi := false
+	forEachInstr(fn, func(_ *ssa.BasicBlock, _ int, in ssa.Instruction) {
+		b, ok := in.(*ssa.BinOp)
+		if !ok {
+			return
+		}
+		if v, _, ok := nilFact(b, true); ok {
+			if _, isPhi := v.(*ssa.Phi); isPhi {
+				hasPhi = true
+				add(v, 0)
+			}
+		}
+	})
+	if !hasPhi {
+		rel = nil
+	} else {
+		// the other tested values take part too (a fact about a phi's operand becomes a fact about the phi)
+		forEachInstr(fn, func(_ *ssa.BasicBlock, _ int, in ssa.Instruction) {
+			if b, ok := in.(*ssa.BinOp); ok {
+				if v, _, ok := nilFact(b, true); ok {
+					add(v, 0)
+				}
+			}
+		})
+	}
+	nilRelevantCache[fn] = rel
+	return rel
 }
 
 // isReturn / exit helpers
